@@ -149,6 +149,7 @@ class InfraError(Exception):
 # ----------------------------------------------------------------------------
 # TLC
 
+_META_N = 0
 TLC_STATS = re.compile(r"(\d+) states generated, (\d+) distinct states found")
 
 
@@ -162,7 +163,9 @@ def tlc(spec_dir, module, cfg=None, env=None, workers=1, timeout=600, simulate=N
     e["JAVA_TOOL_OPTIONS"] = opts
     if env:
         e.update({k: str(v) for k, v in env.items()})
-    meta = meta or scratch_dir("meta-%s-%d" % (module, os.getpid()))
+    global _META_N
+    _META_N += 1
+    meta = meta or scratch_dir("meta-%s-%d-%d" % (module, os.getpid(), _META_N))
     cmd = ["timeout", str(timeout), "java", "-XX:+UseParallelGC", "-cp", TLA_JAR + ":" + TLA_CM,
            "tlc2.TLC", "-noGenerateSpecTE", "-metadir", meta, "-workers", str(workers)]
     if not deadlock:
@@ -285,6 +288,17 @@ class Check:
                         break
                 return path, res
             return f
+        for p in traces:
+            if len(self.samples) >= 4:
+                break
+            try:
+                with open(p) as fh:
+                    for _ in range(3):
+                        ln = fh.readline()
+                        if ln.strip() and len(ln) < 600:
+                            self.samples.append(json.loads(ln))
+            except Exception:
+                pass
         results = run_parallel([one(p) for p in traces])
         bads = []
         for path, res in results:
@@ -293,6 +307,11 @@ class Check:
                 raise InfraError("trace validation of %s did not complete (rc=%s)" % (path, res["rc"]))
             self.states += res["distinct"]
             self.transitions += res["generated"]
+            nd = res["out"].count('"DRIFT ')
+            if nd:
+                self.extra["model_drift_events"] = self.extra.get("model_drift_events", 0) + nd
+                first = [x for x in res["out"].splitlines() if x.startswith('"DRIFT ')][0]
+                print("MODEL-DRIFT property=%s %s" % (self.pid, first[:300]), flush=True)
             m = re.search(r"TRACE-DONE (\d+)", res["out"])
             lines = None
             for b in parse_bad(res["out"]):
